@@ -292,7 +292,12 @@ class Verdict:
             "violation_classes": {c: sum(1 for x in self.violations if x[0] == c) for c in sorted(set(x[0] for x in self.violations))},
             "notes": self.notes,
         }
-        with open(os.path.join(VERIF, "evidence", self.prop + ".json"), "w") as fh:
+        # evidence of the registered checks describes /repo; a trial against another tree (VERIF_REPO=<scratch
+        # worktree>, used to try seeded changes) writes next to the other scratch output instead
+        edir = os.path.join(VERIF, "evidence") if REPO == "/repo" else os.path.join(OUT, "evidence-other-tree")
+        os.makedirs(edir, exist_ok=True)
+        ev["repo"] = REPO
+        with open(os.path.join(edir, self.prop + ".json"), "w") as fh:
             json.dump(ev, fh, indent=1, sort_keys=True)
         sys.stdout.flush()
         return 1 if self.violations else 0
